@@ -42,7 +42,9 @@ RULE = ("exhaustive: every atom with neutron data x 5 wavelengths x 4 entry poin
         "were revised after it; a case is non-trivial when it has >= 2 atoms, an energy-dependent atom, an "
         "ion, or a vector; distinct by canonical input; copies (copy, deepcopy, pickles) of the neutron records of "
         "every energy-dependent atom and a sample of the others queried directly at 3 wavelengths and installed in "
-        "a private table; 40% of the energy= cases also give a (different) wavelength=")
+        "a private table; 40% of the energy= cases also give a (different) wavelength=; every default-wavelength case "
+        "also with an explicit wavelength=None through neutron_scattering / neutron_sld (module and package) and "
+        "Formula.neutron_sld() / (wavelength=None)")
 
 WAVELENGTHS = [1.798, 0.05, 50.0, 0.7, 4.75]
 
@@ -105,7 +107,30 @@ def eval_real(pt, case):
         return used, atoms, [nc.scat_tuple(res)], [float(nsf.neutron_wavelength(case["w"][0]))]
     if mode == "default":
         # documented: "wavelength 1.798 : Neutron wavelength (default=1.798 Ang)"
-        return used, atoms, [nc.scat_tuple(nsf.neutron_scattering(f, **kw))], [1.798]
+        res = nsf.neutron_scattering(f, **kw)
+        # "no wavelength" spelled wavelength=None (the default value in the signatures of neutron_scattering and of
+        # Formula.neutron_sld; what a caller forwarding an optional wavelength passes): the same default, 1.798 A
+        case["_default_none"] = None
+        if res[0] is not None:
+            routes = [("nsf.neutron_scattering(wavelength=None)", lambda: nsf.neutron_scattering(f, wavelength=None, **kw)),
+                      ("periodictable.neutron_scattering(wavelength=None)", lambda: getattr(pt, "public", pt).neutron_scattering(f, wavelength=None, **kw)),
+                      ("nsf.neutron_scattering(wavelength=None, energy=None)",
+                       lambda: nsf.neutron_scattering(f, wavelength=None, energy=None, **kw)),
+                      ("nsf.neutron_sld(wavelength=None)", lambda: nsf.neutron_sld(f, wavelength=None, **kw)),
+                      ("periodictable.neutron_sld(wavelength=None)", lambda: pt.neutron_sld(f, wavelength=None, **kw)),
+                      ("nsf.neutron_sld()", lambda: nsf.neutron_sld(f, **kw))]
+            if not kw and "struct" not in case and not case.get("private"):
+                routes += [("Formula.neutron_sld()", lambda: f.neutron_sld()),
+                           ("Formula.neutron_sld(wavelength=None)", lambda: f.neutron_sld(wavelength=None))]
+            got = []
+            for name, fn in routes:
+                try:
+                    v = fn()
+                    got.append((name, [float(x) for x in (v[0] if "scattering" in name else v)]))
+                except Exception as e:  # noqa
+                    got.append((name, "raises %s: %s" % (type(e).__name__, e)))
+            case["_default_none"] = ([float(x) for x in res[0]], got)
+        return used, atoms, [nc.scat_tuple(res)], [1.798]
     import numpy as np
     ws = case["w"]
     if case.get("intvec"):
@@ -162,6 +187,21 @@ def judge(run, pt, orc, case, reply, corr):
             if not same:
                 run.violation("%s(%s=...) is %r, neutron_scattering(...)[0] is %r" % (name, case["mode"], alt, ref),
                               case, site="neutron_sld")
+                break
+    dn = case.pop("_default_none", None)
+    if dn is not None:
+        ref, got = dn
+        for name, alt in got:
+            if isinstance(alt, str):
+                same = False
+            elif name.startswith("Formula."):
+                same = list(alt) == list(ref) if isinstance(real[0], str) else \
+                    nc.sld_close(list(alt), list(ref), N, nc.sigma_total_xs(real[0]))
+            else:
+                same = all(close(a, b, rel=1e-12, abs_=0.0) or a == b for a, b in zip(ref, alt))
+            if not same:
+                run.violation("at the default wavelength (1.798 A) %s gives %s, neutron_scattering(...)[0] without a wavelength "
+                              "gives %r" % (name, alt, ref), case, site="default-wavelength")
                 break
     for i, (r, m) in enumerate(zip(real, model)):
         if not nc.scat_close(r, m, N):
